@@ -5,7 +5,7 @@ use std::collections::{BTreeMap, HashSet};
 use crate::reasoning::{convert_string_binding_to_u32, Reasoner};
 use crate::reasoning::materialisation::infer_generic::{SolutionMapping, InferenceStrategy};
 use crate::reasoning::materialisation::replace_variables_with_bound_values;
-use crate::reasoning::rules::{evaluate_filters, join_premise_with_hash_join};
+use crate::reasoning::rules::{evaluate_filters, join_premise_with_hash_join, negative_premises_hold};
 
 struct SemiNaiveStrategy {
     start_idx_for_delta: usize,
@@ -65,7 +65,9 @@ impl InferenceStrategy for SemiNaiveStrategy {
 
                 // For each binding that satisfies the premises of the rule, get to the conclusion and apply bindings
                 for binding_set in &binding_sets {
-                    if evaluate_filters(&binding_set, &rule.filters, dictionary) {
+                    if evaluate_filters(&binding_set, &rule.filters, dictionary)
+                        && negative_premises_hold(&binding_set, &rule.negative_premise, known_facts)
+                    {
                         // Loop over each conclusion of the rule, since for the current binding,
                         // the conclusions of the rule can be inferred (because premises are met)
                         for conclusion in &rule.conclusion {
@@ -82,6 +84,10 @@ impl InferenceStrategy for SemiNaiveStrategy {
             }
 
             inferred_facts_this_round
+    }
+
+    fn start_stratum(&mut self) {
+        self.start_idx_for_delta = 0;
     }
 }
 
